@@ -34,6 +34,7 @@ type C04Case struct {
 	UseEncoder bool       `json:"use_encoder"`       // frames from the shipped encoder (else reference framer)
 	Channel    bool       `json:"channel"`           // run through a real channel + read loop
 	Consume    string     `json:"consume,omitempty"` // how the consumer reads a message: "" readall | copy | tobytes
+	Hold       bool       `json:"hold,omitempty"`    // the next outbound handler keeps every emitted message and serialises them only after the last encode
 }
 
 var c04Carriers = []string{"bytes", "string", "buffer", "breader", "sreader", "bb", "reader", "short"}
@@ -268,6 +269,7 @@ func genC04(t *rapid.T) C04Case {
 	c.End = "eof" // data returned together with io.EOF is not a transport-read fragmentation; see C14
 	c.Channel = rapid.IntRange(0, 49).Draw(t, "layer") == 0
 	c.Consume = rapid.SampledFrom([]string{"", "", "copy", "tobytes"}).Draw(t, "consume")
+	c.Hold = rapid.IntRange(0, 3).Draw(t, "hold") == 0
 	return c
 }
 
@@ -316,6 +318,27 @@ func runC04(c C04Case) (out core.Outcome) {
 	var stream []byte
 	var ends []int
 	var want [][]byte
+	type heldMsg struct {
+		m     interface{}
+		snap  []byte
+		frame int
+	}
+	var held []heldMsg
+	defer func() {
+		if out.Violation != nil || out.Inconclusive != "" {
+			return
+		}
+		for _, h := range held {
+			now, _ := wire.Flatten(h.m)
+			if !bytes.Equal(now, h.snap) {
+				out.Violation = core.Viol("C04/emitted-frame-changed-later:"+cd.Kind, "the message emitted for frame %d held % x when it was handed on, and holds % x after later frames were encoded: the encoder reuses memory it has passed downstream", h.frame, h.snap[:imin(12, len(h.snap))], now[:imin(12, len(now))])
+				return
+			}
+		}
+		if len(held) > 1 {
+			cls.Add("held-frames")
+		}
+	}()
 	for i, f := range c.Frames {
 		payload, repaired := payloadBytes(cd, f.Len, f.Seed)
 		if repaired {
@@ -345,6 +368,13 @@ func runC04(c C04Case) (out core.Outcome) {
 				}
 				emitted = append(emitted, b...)
 				got = true
+				if c.Hold {
+					switch m.(type) {
+					case []byte, [][]byte:
+						// the next handler keeps the message (e.g. a batching handler): it must still hold the same bytes later
+						held = append(held, heldMsg{m: m, snap: append([]byte{}, b...), frame: i})
+					}
+				}
 			}}
 			pv := mock.Catch(func() { enc.HandleWrite(ctx, carrierOf(f.Carrier, payload, f.Seed)) })
 			switch {
